@@ -606,25 +606,18 @@ Proof.
     inversion Vl'. reflexivity.
 Qed.
 
-Definition small (z : Z) : bool := (Z.abs z <? LuaLex.pow10 14)%Z.
+(* Lua 5.3 prints an integer with all its digits *)
+Theorem key_inj_int : forall z z', rt_tostring (vint z) = rt_tostring (vint z') -> z = z'.
+Proof. intros z z'. apply z_to_dec_inj. Qed.
 
-Lemma tostring_small_int : forall z, small z = true -> rt_tostring (vint z) = z_to_dec z.
+(* floats are printed with 14 significant digits (K: CmpEqu admits float keys) *)
+Theorem key_inj_float_refuted : exists p q : Q,
+  q_wf p /\ q_wf q /\ ~ Qeq p q /\ rt_tostring (VFloat p) = rt_tostring (VFloat q) /\
+  rt_tostring (VFloat p) = "1.0"%string.
 Proof.
-  intros z H. unfold vint. cbn [rt_tostring]. unfold fmt_g14. cbn [Qnum Qden].
-  destruct (Z.eqb_spec z 0) as [->|N]; [reflexivity|].
-  unfold small in H. change (q_is_int (z # 1)) with true. cbn [andb]. rewrite H. reflexivity.
-Qed.
-
-Theorem key_inj_small_int : forall z z', small z = true -> small z' = true ->
-  rt_tostring (vint z) = rt_tostring (vint z') -> z = z'.
-Proof.
-  intros z z' H H'. rewrite (tostring_small_int z H), (tostring_small_int z' H'). apply z_to_dec_inj.
-Qed.
-
-(* ints are 64-bit in Sylt and exact in a double up to 2^53, but %.14g keeps 14 digits *)
-Theorem key_inj_int_refuted : exists z z', z <> z' /\ rt_tostring (vint z) = rt_tostring (vint z').
-Proof.
-  exists 100000000000000%Z, 100000000000001%Z. split; [discriminate | vm_compute; reflexivity].
+  exists (1000000000000001 # 1000000000000000)%Q, (500000000000001 # 500000000000000)%Q.
+  split; [vm_compute; reflexivity|]. split; [vm_compute; reflexivity|].
+  split; [unfold Qeq; simpl; discriminate|]. split; vm_compute; reflexivity.
 Qed.
 
 (* the printed form of a tuple does not delimit its string components *)
@@ -645,29 +638,11 @@ Proof.
   split; vm_compute; reflexivity.
 Qed.
 
-(* ints below 10^14 as a key type *)
-Definition small_int : Type := { z : Z | small z = true }.
-Definition emb_small (k : small_int) : value := vint (proj1_sig k).
-Definition small_eqb (a b : small_int) : bool := Z.eqb (proj1_sig a) (proj1_sig b).
-
-Lemma small_int_ext : forall a b : small_int, proj1_sig a = proj1_sig b -> a = b.
-Proof.
-  intros [a Ha] [b Hb]. simpl. intros ->. f_equal. apply UIP_dec. apply bool_dec.
-Qed.
-
-Lemma small_eqb_eq : forall a b, small_eqb a b = true <-> a = b.
-Proof.
-  intros a b. unfold small_eqb. rewrite Z.eqb_eq. split; [apply small_int_ext | intros ->; reflexivity].
-Qed.
-
-Lemma small_key_inj : forall a b, rt_tostring (emb_small a) = rt_tostring (emb_small b) -> a = b.
-Proof.
-  intros a b H. apply small_int_ext.
-  apply key_inj_small_int; [exact (proj2_sig a) | exact (proj2_sig b) | exact H].
-Qed.
-
 Lemma string_eqb_eq : forall a b : string, String.eqb a b = true <-> a = b.
 Proof. apply String.eqb_eq. Qed.
+
+Lemma z_eqb_eq : forall a b : Z, Z.eqb a b = true <-> a = b.
+Proof. apply Z.eqb_eq. Qed.
 
 (* the instances: every history on dicts/sets keyed by strings, and (without remove, for dicts) by ints *)
 Theorem dict_history_str_keys : forall (V : Type) (embV : V -> value) ops m,
@@ -680,12 +655,12 @@ Proof.
 Qed.
 
 Theorem dict_history_int_keys : forall (V : Type) (embV : V -> value) ops m,
-  existsb (is_remove small_int V) ops = false ->
-  rt_drun small_int V emb_small embV ops (rep_dict small_int V emb_small embV m) =
-  Ok (rep_dict small_int V emb_small embV (fst (d_run small_int V small_eqb ops m)),
-      map (emb_dobs V embV) (snd (d_run small_int V small_eqb ops m))).
+  existsb (is_remove Z V) ops = false ->
+  rt_drun Z V vint embV ops (rep_dict Z V vint embV m) =
+  Ok (rep_dict Z V vint embV (fst (d_run Z V Z.eqb ops m)),
+      map (emb_dobs V embV) (snd (d_run Z V Z.eqb ops m))).
 Proof.
-  intros. apply (dict_history_refines small_int V emb_small embV small_eqb small_eqb_eq small_key_inj).
+  intros. apply (dict_history_refines Z V vint embV Z.eqb z_eqb_eq key_inj_int).
   right. assumption.
 Qed.
 
@@ -695,10 +670,9 @@ Theorem set_history_str_keys : forall ops s,
 Proof. intros. apply (set_history_refines string VStr String.eqb string_eqb_eq key_inj_str). Qed.
 
 Theorem set_history_int_keys : forall ops s,
-  rt_srun small_int emb_small ops (rep_set small_int emb_small s) =
-  Ok (rep_set small_int emb_small (fst (s_run small_int small_eqb ops s)),
-      map emb_sobs (snd (s_run small_int small_eqb ops s))).
-Proof. intros. apply (set_history_refines small_int emb_small small_eqb small_eqb_eq small_key_inj). Qed.
+  rt_srun Z vint ops (rep_set Z vint s) =
+  Ok (rep_set Z vint (fst (s_run Z Z.eqb ops s)), map emb_sobs (snd (s_run Z Z.eqb ops s))).
+Proof. intros. apply (set_history_refines Z vint Z.eqb z_eqb_eq key_inj_int). Qed.
 
 (* dict_remove with a key that is not a string removes nothing *)
 Theorem dict_remove_int_refuted : exists d k v d' d'',
@@ -724,7 +698,7 @@ Proof.
 Qed.
 
 Lemma vint_eq : forall a b, rt_eq (vint a) (vint b) = Z.eqb a b.
-Proof. intros. unfold vint. cbn [rt_eq]. unfold q_eqb. cbn [Qnum Qden]. apply andb_true_r. Qed.
+Proof. reflexivity. Qed.
 
 Theorem list_history_ints : forall ops rops l, Forall2 (op_rel Z vint) ops rops ->
   rt_lrun rops (rep_list Z vint l) =
@@ -737,10 +711,10 @@ Theorem list_history_strs : forall ops rops l, Forall2 (op_rel string VStr) ops 
       map (emb_obs string VStr) (snd (l_run string String.eqb ops l))).
 Proof. intros. apply (list_history_refines string VStr String.eqb (fun a b => eq_refl)). assumption. Qed.
 
-(* key injectivity for tuples of small ints (the key type of tests/sylt_std/dict_simple.sy): stated,
-   not proved here; exercised by the correspondence and the oracle only *)
+(* key injectivity for tuples of ints (the key type of tests/sylt_std/dict_simple.sy): stated, not proved
+   here; exercised by the correspondence and the oracle only *)
 Definition key_inj_int_tuple_statement : Prop :=
-  forall zs zs' : list Z, length zs = length zs' -> forallb small zs = true -> forallb small zs' = true ->
+  forall zs zs' : list Z, length zs = length zs' ->
   rt_tostring (VTuple (map vint zs)) = rt_tostring (VTuple (map vint zs')) -> zs = zs'.
 
 (* ------------------------------------------------------------------------------------------------ *)
@@ -836,7 +810,7 @@ Qed.
 
 Theorem abs_int : forall a, rt_abs (vint a) = Ok (vint (Z.abs a)).
 Proof.
-  intros. unfold rt_abs. change (VNum q_zero) with (vint 0). rewrite vint_lt. cbn [rbind].
+  intros. unfold rt_abs. change v_zero with (vint 0). rewrite vint_lt. cbn [rbind].
   destruct (Z.ltb_spec a 0).
   - rewrite Z.abs_neq by lia. reflexivity.
   - rewrite Z.abs_eq by lia. reflexivity.
@@ -855,7 +829,7 @@ Qed.
 
 Theorem sign_int : forall a, rt_sign (vint a) = Ok (vint (Z.sgn a)).
 Proof.
-  intros. unfold rt_sign, rt_gt. change (VNum q_zero) with (vint 0). rewrite !vint_lt. cbn [rbind].
+  intros. unfold rt_sign, rt_gt. change v_zero with (vint 0). rewrite !vint_lt. cbn [rbind].
   destruct (Z.ltb_spec 0 a).
   - rewrite Z.sgn_pos by lia. reflexivity.
   - cbn [rbind]. destruct (Z.ltb_spec a 0).
@@ -869,53 +843,51 @@ Proof. intros [n d]. reflexivity. Qed.
 (* div: floor division, and 0 for a zero divisor -- Coq's Z.div *)
 Theorem div_int : forall a b, rt_idiv (vint a) (vint b) = Ok (vint (z_div a b)).
 Proof.
-  intros a b. unfold rt_idiv, z_div. change (VNum q_zero) with (vint 0). rewrite vint_eq.
+  intros a b. unfold rt_idiv, z_div. change v_zero with (vint 0). rewrite vint_eq.
   destruct (Z.eqb_spec b 0) as [->|N].
   - rewrite Zdiv_0_r. reflexivity.
-  - unfold rt_div, vint. cbn [rt_arith to_num]. cbn [num_op rmap].
-    assert (Z0 : q_is_zero (b # 1) = false) by (unfold q_is_zero; simpl; apply Z.eqb_neq; exact N).
-    rewrite Z0. cbn [rmap rbind]. f_equal. unfold vint. f_equal. f_equal.
+  - unfold rt_div, vint. change (rt_arith OpDiv (VInt a) (VInt b)) with (int_op OpDiv a b).
+    cbn [int_op]. destruct (Z.eqb_spec b 0); [contradiction|]. cbn [rbind rt_floor]. f_equal. f_equal.
     unfold q_div. rewrite q_floor_Qfloor, (Qfloor_comp _ _ (Qred_correct _)). symmetry. apply Zdiv_Qdiv.
 Qed.
 
-Theorem floor_num : forall q, rt_floor (VNum q) = Ok (vint (Qfloor q)).
-Proof. intros. unfold rt_floor. cbn [to_num]. rewrite q_floor_Qfloor. reflexivity. Qed.
+Theorem floor_num : forall q, rt_floor (VFloat q) = Ok (vint (Qfloor q)).
+Proof. intros. cbn [rt_floor]. rewrite q_floor_Qfloor. reflexivity. Qed.
 
 Theorem floor_int : forall a, rt_floor (vint a) = Ok (vint a).
-Proof. intros. unfold vint. rewrite floor_num. simpl. rewrite Z.div_1_r. reflexivity. Qed.
+Proof. reflexivity. Qed.
 
 (* on rationals (Sylt float) *)
 Local Open Scope Q_scope.
 
-Theorem min_num : forall p q, rt_min (VNum p) (VNum q) = Ok (VNum (q_min_spec p q)).
+Theorem min_num : forall p q, rt_min (VFloat p) (VFloat q) = Ok (VFloat (q_min_spec p q)).
 Proof.
   intros. unfold rt_min, q_min_spec. cbn [rt_lt rbind]. destruct (Qlt_le_dec p q) as [L|L].
   - apply q_ltb_Qlt in L. rewrite L. reflexivity.
   - destruct (q_ltb p q) eqn:E; [|reflexivity]. apply q_ltb_Qlt in E. exfalso. exact (Qlt_not_le _ _ E L).
 Qed.
 
-Theorem max_num : forall p q, rt_max (VNum p) (VNum q) = Ok (VNum (q_max_spec p q)).
+Theorem max_num : forall p q, rt_max (VFloat p) (VFloat q) = Ok (VFloat (q_max_spec p q)).
 Proof.
   intros. unfold rt_max, rt_gt, q_max_spec. cbn [rt_lt rbind]. destruct (Qlt_le_dec q p) as [L|L].
   - apply q_ltb_Qlt in L. rewrite L. reflexivity.
   - destruct (q_ltb q p) eqn:E; [|reflexivity]. apply q_ltb_Qlt in E. exfalso. exact (Qlt_not_le _ _ E L).
 Qed.
 
-Theorem abs_num : forall p, rt_abs (VNum p) = Ok (VNum (q_abs_spec p)).
+Theorem abs_num : forall p, rt_abs (VFloat p) = Ok (VFloat (q_abs_spec p)).
 Proof.
-  intros. unfold rt_abs, q_abs_spec. cbn [rt_lt rbind].
-  assert (Z0 : forall x, x < q_zero <-> x < 0) by (intros; reflexivity).
+  intros. unfold rt_abs, q_abs_spec, v_zero. cbn [rt_lt rbind].
   destruct (Qlt_le_dec p 0) as [L|L].
-  - apply Z0, q_ltb_Qlt in L. rewrite L. reflexivity.
-  - destruct (q_ltb p q_zero) eqn:E; [|reflexivity]. apply q_ltb_Qlt, Z0 in E. exfalso. exact (Qlt_not_le _ _ E L).
+  - assert (L' : p < 0 # 1) by exact L. apply q_ltb_Qlt in L'. rewrite L'. reflexivity.
+  - destruct (q_ltb p (0 # 1)) eqn:E; [|reflexivity]. apply q_ltb_Qlt in E. exfalso. exact (Qlt_not_le _ _ E L).
 Qed.
 
-Theorem sign_num : forall p, rt_sign (VNum p) = Ok (vint (q_sign_spec p)).
+Theorem sign_num : forall p, rt_sign (VFloat p) = Ok (vint (q_sign_spec p)).
 Proof.
-  intros [n d]. unfold rt_sign, rt_gt, q_sign_spec. cbn [rt_lt rbind Qnum].
-  assert (P : q_ltb q_zero (n # d) = (0 <? n)%Z).
+  intros [n d]. unfold rt_sign, rt_gt, q_sign_spec, v_zero. cbn [rt_lt rbind Qnum].
+  assert (P : q_ltb (0 # 1) (n # d) = (0 <? n)%Z).
   { apply bool_eq_iff. rewrite q_ltb_Qlt, Z.ltb_lt. unfold Qlt. simpl. lia. }
-  assert (N : q_ltb (n # d) q_zero = (n <? 0)%Z).
+  assert (N : q_ltb (n # d) (0 # 1) = (n <? 0)%Z).
   { apply bool_eq_iff. rewrite q_ltb_Qlt, Z.ltb_lt. unfold Qlt. simpl. lia. }
   rewrite P, N. destruct (Z.ltb_spec 0 n).
   - cbn [rbind]. rewrite Z.sgn_pos by lia. reflexivity.
